@@ -1,63 +1,88 @@
 (* C18 — GridFS returns the bytes that were uploaded, at any offset.
    Theorems about the executable model Model/Gridfs.v of /repo/bucket.go, for
-   ALL contents, chunk sizes 0 < cs <= B (B the upload buffer size), write
-   partitions, suspend/resume points and download scripts.  Only statements
-   closed by `exact`, with Print Assumptions.  The guards are needed: the
-   `_refuted` theorems show the unrestricted statements false of the faithful
-   model (chunk size <= 0 panics, chunk size > buffer hangs, unknown whence). *)
+   ALL contents, write partitions, suspend/resume points, download scripts and
+   every chunk size with which an upload stream can be opened.  Only statements
+   closed by `exact`, with Print Assumptions. *)
 From Coq Require Import List ZArith.
 From Lungo.Model Require Import Gridfs.
 From Lungo.Proofs Require Import GridfsProofs.
 Import ListNotations.
 Open Scope Z_scope.
 
+(* OpenUploadStreamWithID succeeds exactly for 0 < chunk size <= upload buffer *)
+Theorem C18_open_ok : forall c f cs u,
+  open_upload c f cs = Some u -> 0 < cs <= cfg_B c /\ u = new_upload f cs.
+Proof. exact open_ok. Qed.
+Print Assumptions C18_open_ok.
+
+Theorem C18_open_rejects_bad_chunk_size : forall c f cs,
+  cs <= 0 \/ cs > cfg_B c -> open_upload c f cs = None.
+Proof. exact open_rejects_bad_chunk_size. Qed.
+Print Assumptions C18_open_rejects_bad_chunk_size.
+
 (* Closing after any sequence of writes stores chunks whose concatenation is
    the concatenation of the writes, numbered 0..n-1, all of file f, all but
    the last of length cs, the last non-empty; the file record states the exact
    length and chunk size (in a tracked bucket: after ClaimUpload); the file
    records and chunks of other files are untouched. *)
-Theorem C18_upload_concat_partial : forall c f cs parts st0,
-  0 < cs <= cfg_B c -> fresh st0 f -> ids_fresh st0 ->
+Theorem C18_upload_concat : forall c f cs parts st0 u0,
+  open_upload c f cs = Some u0 -> fresh st0 f -> ids_fresh st0 ->
   exists st, upload_run c st0 f cs parts = Some st /\
              stored_as_stated st f cs (concat parts) /\ OtherSame f st0 st.
-Proof. exact upload_concat_partial. Qed.
-Print Assumptions C18_upload_concat_partial.
+Proof. exact upload_concat. Qed.
+Print Assumptions C18_upload_concat.
 
 (* ... and the stored chunk list is the canonical chunking of the content *)
-Theorem C18_upload_canonical : forall c f cs parts st0,
-  0 < cs <= cfg_B c -> fresh st0 f -> ids_fresh st0 ->
+Theorem C18_upload_canonical : forall c f cs parts st0 u0,
+  open_upload c f cs = Some u0 -> fresh st0 f -> ids_fresh st0 ->
   exists st, upload_run c st0 f cs parts = Some st /\
              Stored c f cs (concat parts) st /\ OtherSame f st0 st.
 Proof. exact upload_canonical. Qed.
 Print Assumptions C18_upload_canonical.
 
+(* no guard at all: refused at open (nothing stored) or stored exactly *)
+Theorem C18_upload_total : forall c f cs parts st0,
+  fresh st0 f -> ids_fresh st0 ->
+  (open_upload c f cs = None /\ (cs <= 0 \/ cs > cfg_B c) /\ upload_run c st0 f cs parts = None) \/
+  (exists st, upload_run c st0 f cs parts = Some st /\
+              stored_as_stated st f cs (concat parts) /\ OtherSame f st0 st).
+Proof. exact upload_total. Qed.
+Print Assumptions C18_upload_total.
+
 (* Suspending at any points (Suspend; new stream; Resume; continue from the
    reported offset) ends in the same stored state as the uninterrupted upload. *)
-Theorem C18_suspend_resume_partial : forall c f cs content script st0,
-  0 < cs <= cfg_B c -> script_ok c script -> fresh st0 f -> ids_fresh st0 ->
+Theorem C18_suspend_resume : forall c f cs content script st0 u0,
+  open_upload c f cs = Some u0 -> script_ok c script -> fresh st0 f -> ids_fresh st0 ->
   exists st st',
     client_upload c st0 f cs content script = Some st /\
     upload_run c st0 f cs [content] = Some st' /\
     find_chunks st f = find_chunks st' f /\ find_file st f = find_file st' f /\
     stored_as_stated st f cs content /\ OtherSame f st0 st.
-Proof. exact suspend_resume_partial. Qed.
-Print Assumptions C18_suspend_resume_partial.
+Proof. exact suspend_resume. Qed.
+Print Assumptions C18_suspend_resume.
 
-(* Any script of Read n / Seek off whence / Skip n on the download stream of a
+(* ANY script of Read n / Seek off whence / Skip n on the download stream of a
    stored file = the same script on an in-memory reader of the content: bytes,
-   returned positions, errors on negative positions, EOF behaviour (incl.
-   zero-length reads and seeks beyond the end), and the final position. *)
-Theorem C18_download_equiv_partial : forall st f cs content script,
-  wf_file st f cs content -> Forall valid_op script ->
+   returned positions, errors (negative position, unknown whence), EOF
+   behaviour (incl. zero-length reads and seeks beyond the end), and the final
+   position. *)
+Theorem C18_download_equiv : forall st f cs content script,
+  wf_file st f cs content ->
   exists d, dopen st f = DOpened d /\
             fst (run_download st d script) = fst (run_reader (bytes_reader content) script) /\
             d_pos (snd (run_download st d script)) = br_pos (snd (run_reader (bytes_reader content) script)).
-Proof. exact download_equiv_partial. Qed.
-Print Assumptions C18_download_equiv_partial.
+Proof. exact download_equiv. Qed.
+Print Assumptions C18_download_equiv.
+
+Theorem C18_seek_rejects_unknown_whence : forall st d offset whence,
+  d_closed d = false -> ~ valid_whence whence ->
+  dseek_whence st d offset whence = (d, PErr EOther).
+Proof. exact seek_rejects_unknown_whence. Qed.
+Print Assumptions C18_seek_rejects_unknown_whence.
 
 (* End to end: upload with any partition and suspensions, then any script. *)
-Theorem C18_roundtrip : forall c f cs content uscript st0 dscript,
-  0 < cs <= cfg_B c -> script_ok c uscript -> fresh st0 f -> ids_fresh st0 -> Forall valid_op dscript ->
+Theorem C18_roundtrip : forall c f cs content uscript st0 u0 dscript,
+  open_upload c f cs = Some u0 -> script_ok c uscript -> fresh st0 f -> ids_fresh st0 ->
   exists st d,
     client_upload c st0 f cs content uscript = Some st /\ dopen st f = DOpened d /\
     fst (run_download st d dscript) = fst (run_reader (bytes_reader content) dscript).
@@ -66,8 +91,8 @@ Print Assumptions C18_roundtrip.
 
 (* An upload aborted at any point leaves no chunk, no file record and (tracked)
    no marker of the file; other files are untouched. *)
-Theorem C18_abort_leaves_nothing : forall c f cs content script st0,
-  0 < cs <= cfg_B c -> script_ok c script -> fresh st0 f -> ids_fresh st0 ->
+Theorem C18_abort_leaves_nothing : forall c f cs content script st0 u0,
+  open_upload c f cs = Some u0 -> script_ok c script -> fresh st0 f -> ids_fresh st0 ->
   exists st, client_abort c st0 f cs content script = Some st /\
              no_chunks st f /\ no_file st f /\ (cfg_tracked c = true -> no_marker st f) /\
              OtherSame f st0 st.
@@ -75,8 +100,8 @@ Proof. exact abort_leaves_nothing. Qed.
 Print Assumptions C18_abort_leaves_nothing.
 
 (* A deleted file leaves nothing behind: untracked bucket ... *)
-Theorem C18_delete_leaves_nothing : forall c f cs parts st0,
-  0 < cs <= cfg_B c -> cfg_tracked c = false -> fresh st0 f -> ids_fresh st0 ->
+Theorem C18_delete_leaves_nothing : forall c f cs parts st0 u0,
+  open_upload c f cs = Some u0 -> cfg_tracked c = false -> fresh st0 f -> ids_fresh st0 ->
   exists st st',
     upload_run c st0 f cs parts = Some st /\ delete c st f = (st', UOk) /\
     no_chunks st' f /\ no_file st' f /\ dopen st' f = DOpenErr ENotFound /\ OtherSame f st0 st'.
@@ -85,8 +110,8 @@ Print Assumptions C18_delete_leaves_nothing.
 
 (* ... and tracked bucket (Delete marks, Cleanup removes); files without a
    marker are untouched by the cleanup. *)
-Theorem C18_delete_cleanup_leaves_nothing : forall c f cs parts st0,
-  0 < cs <= cfg_B c -> cfg_tracked c = true -> fresh st0 f -> ids_fresh st0 ->
+Theorem C18_delete_cleanup_leaves_nothing : forall c f cs parts st0 u0,
+  open_upload c f cs = Some u0 -> cfg_tracked c = true -> fresh st0 f -> ids_fresh st0 ->
   exists st st',
     upload_run c st0 f cs parts = Some st /\ delete_cleanup c st f = Some st' /\
     no_chunks st' f /\ no_file st' f /\ no_marker st' f /\ dopen st' f = DOpenErr ENotFound /\
@@ -96,35 +121,38 @@ Theorem C18_delete_cleanup_leaves_nothing : forall c f cs parts st0,
 Proof. exact delete_cleanup_leaves_nothing. Qed.
 Print Assumptions C18_delete_cleanup_leaves_nothing.
 
-(* The guards cannot be dropped (findings about lungo, see DESIGN.md 7.18). *)
-Theorem C18_upload_concat_refuted_zero_chunk_size :
+(* What the validation at open protects from (lungo before fix ae31d98): the
+   same runs on a stream that did not come from open_upload. *)
+Theorem C18_unguarded_zero_chunk_size_panics :
   exists c data,
-    fresh empty_store 1 /\ ids_fresh empty_store /\
-    upload_run c empty_store 1 0 [data] = None /\
+    open_upload c 1 0 = None /\
+    upload_from c empty_store (new_upload 1 0) [data] = None /\
     (let '(st, u, _) := write c empty_store (new_upload 1 0) data in snd (close c st u)) = UPanic.
-Proof. exact upload_concat_refuted_zero_chunk_size. Qed.
-Print Assumptions C18_upload_concat_refuted_zero_chunk_size.
+Proof. exact unguarded_zero_chunk_size_panics. Qed.
+Print Assumptions C18_unguarded_zero_chunk_size_panics.
 
-Theorem C18_upload_concat_refuted_negative_chunk_size :
+Theorem C18_unguarded_negative_chunk_size_panics :
   exists c data,
-    upload_run c empty_store 1 (-1) [data] = None /\
+    open_upload c 1 (-1) = None /\
+    upload_from c empty_store (new_upload 1 (-1)) [data] = None /\
     (let '(st, u, _) := write c empty_store (new_upload 1 (-1)) data in snd (close c st u)) = UPanic.
-Proof. exact upload_concat_refuted_negative_chunk_size. Qed.
-Print Assumptions C18_upload_concat_refuted_negative_chunk_size.
+Proof. exact unguarded_negative_chunk_size_panics. Qed.
+Print Assumptions C18_unguarded_negative_chunk_size_panics.
 
-Theorem C18_upload_concat_refuted_nonpositive_empty :
+Theorem C18_unguarded_nonpositive_empty_unreadable :
   exists c st,
-    upload_run c empty_store 1 (-1) [] = Some st /\ dopen st 1 = DOpenErr EOther.
-Proof. exact upload_concat_refuted_nonpositive_empty. Qed.
-Print Assumptions C18_upload_concat_refuted_nonpositive_empty.
+    open_upload c 1 (-1) = None /\
+    upload_from c empty_store (new_upload 1 (-1)) [] = Some st /\ dopen st 1 = DOpenErr EOther.
+Proof. exact unguarded_nonpositive_empty_unreadable. Qed.
+Print Assumptions C18_unguarded_nonpositive_empty_unreadable.
 
-Theorem C18_upload_concat_refuted_chunk_size_over_buffer :
+Theorem C18_unguarded_chunk_size_over_buffer_hangs :
   exists c cs data,
-    cs > cfg_B c /\
+    cs > cfg_B c /\ open_upload c 1 cs = None /\
     snd (write c empty_store (new_upload 1 cs) data) = NHang /\
-    upload_run c empty_store 1 cs [data] = None.
-Proof. exact upload_concat_refuted_chunk_size_over_buffer. Qed.
-Print Assumptions C18_upload_concat_refuted_chunk_size_over_buffer.
+    upload_from c empty_store (new_upload 1 cs) [data] = None.
+Proof. exact unguarded_chunk_size_over_buffer_hangs. Qed.
+Print Assumptions C18_unguarded_chunk_size_over_buffer_hangs.
 
 (* with a full buffer and cs > B one iteration of Write's loop changes nothing *)
 Theorem C18_write_no_progress : forall c st u,
@@ -134,17 +162,10 @@ Theorem C18_write_no_progress : forall c st u,
 Proof. exact write_no_progress. Qed.
 Print Assumptions C18_write_no_progress.
 
-Theorem C18_download_equiv_refuted_whence :
-  exists st f cs content script d,
-    wf_file st f cs content /\ dopen st f = DOpened d /\
-    fst (run_download st d script) <> fst (run_reader (bytes_reader content) script).
-Proof. exact download_equiv_refuted_whence. Qed.
-Print Assumptions C18_download_equiv_refuted_whence.
-
 (* non-vacuity: the hypotheses are satisfiable, the runs compute *)
 Example C18_upload_example :
   let c := mkCfg 4 true in
-  fresh empty_store 7 /\ ids_fresh empty_store /\ 0 < 3 <= cfg_B c /\
+  fresh empty_store 7 /\ ids_fresh empty_store /\ open_upload c 7 3 = Some (new_upload 7 3) /\
   exists st,
     upload_run c empty_store 7 3 [[1; 2]; [3; 4; 5; 6; 7]; []; [8]] = Some st /\
     find_chunks st 7 = [mkChunk 7 0 [1; 2; 3]; mkChunk 7 1 [4; 5; 6]; mkChunk 7 2 [7; 8]] /\
@@ -165,12 +186,13 @@ Proof. exact suspend_resume_example. Qed.
 Example C18_download_example :
   let st := mkStore [mkChunk 7 0 [1; 2; 3]; mkChunk 7 1 [4; 5; 6]; mkChunk 7 2 [7; 8]] [mkFile 7 8 3] [] 0 in
   let script := [DRead 2; DRead 0; DSkip 2; DRead 9; DRead 1; DSeek (-3) 2; DRead 1; DSeek (-9) 2;
-                 DSeek 20 0; DRead 0; DSeek 3 0; DRead 4] in
-  wf_file st 7 3 [1; 2; 3; 4; 5; 6; 7; 8] /\ Forall valid_op script /\
+                 DSeek 20 0; DRead 0; DSeek 3 0; DSeek 1 3; DRead 4] in
+  wf_file st 7 3 [1; 2; 3; 4; 5; 6; 7; 8] /\
   exists d, dopen st 7 = DOpened d /\
     fst (run_download st d script) =
       [ORead [1; 2] None; ORead [] None; OPos 4; ORead [5; 6; 7; 8] None; ORead [] (Some EEOF);
-       OPos 5; ORead [6] None; OErr ENeg; OPos 20; ORead [] (Some EEOF); OPos 3; ORead [4; 5; 6; 7] None].
+       OPos 5; ORead [6] None; OErr ENeg; OPos 20; ORead [] (Some EEOF); OPos 3; OErr EOther;
+       ORead [4; 5; 6; 7] None].
 Proof. exact download_example. Qed.
 
 Example C18_abort_example :
